@@ -600,7 +600,56 @@ impl<'a> G<'a> {
     }
 }
 
+/// Left-to-right with the first error aborting: every two-operand construct with two failing
+/// operands of different error classes, in both orders.
+fn error_order(em: &mut Emit) {
+    let fails: [(&str, &str); 4] = [
+        ("(9223372036854775807 + 1)", "(bin add (lit (int 9223372036854775807)) (lit (int 1)))"),
+        ("(1 / 0)", "(bin div (lit (int 1)) (lit (int 0)))"),
+        ("({}).zz", "(sel (tmap) (str 122 122))"),
+        ("int('x')", "(call int fn (lit (str 120)))"),
+    ];
+    let spec = CtxSpec { vars: vec![], funs: vec![] };
+    let ctxw = spec.wire();
+    let ctx: Context<'static> = spec.build();
+    for (a, aw) in &fails {
+        for (b, bw) in &fails {
+            if a == b {
+                continue;
+            }
+            let shapes: Vec<(String, String)> = vec![
+                (format!("({} + {})", a, b), format!("(bin add {} {})", aw, bw)),
+                (format!("({} == {})", a, b), format!("(bin eq {} {})", aw, bw)),
+                (format!("({} < {})", a, b), format!("(bin lt {} {})", aw, bw)),
+                (format!("[{}, {}]", a, b), format!("(tlist {} {})", aw, bw)),
+                (format!("{{{}: {}}}", a, b), format!("(tmap ({} {}))", aw, bw)),
+                (format!("{{1: 2, {}: {}}}", a, b), format!("(tmap ((lit (int 1)) (lit (int 2))) ({} {}))", aw, bw)),
+                (format!("([{}])[{}]", a, b), format!("(bin index (tlist {}) {})", aw, bw)),
+                (format!("({} in [{}])", a, b), format!("(bin in {} (tlist {}))", aw, bw)),
+                (format!("contains([{}], {})", a, b), format!("(call contains fn (tlist {}) {})", aw, bw)),
+                (format!("([{}]).contains({})", a, b), format!("(call contains recv (tlist {}) {})", aw, bw)),
+                (format!("max({}, {})", a, b), format!("(call max fn {} {})", aw, bw)),
+                (format!("(({} == 1) && ({} == 1))", a, b), format!("(and (bin eq {} (lit (int 1))) (bin eq {} (lit (int 1))))", aw, bw)),
+                (format!("(({} == 1) ? {} : 1)", a, b), format!("(cond (bin eq {} (lit (int 1))) {} (lit (int 1)))", aw, bw)),
+                (format!("([{}]).map(x, {})", a, b), format!("(mapm (str 120) (tlist {}) {})", aw, bw)),
+                (format!("([1]).map(x, ({} + {}))", a, b), format!("(mapm (str 120) (tlist (lit (int 1))) (bin add {} {}))", aw, bw)),
+            ];
+            for (src, wire) in shapes {
+                let s2 = src.clone();
+                let ctxr = &ctx;
+                let imp = guarded(std::panic::AssertUnwindSafe(move || match Program::compile(&s2) {
+                    Err(_) => "(reject)".to_string(),
+                    Ok(p) => sx_result(&p.execute(ctxr)),
+                }));
+                let imp = if imp == "(reject)" || imp == "(crash)" { imp } else { format!("(c03 typed {} (log) {})", imp, imp) };
+                em.case(&format!("(c03 {} (tenv) {} {})", ctxw, wire, sx_str(&src)), &imp, "nt=1;kind=error-order", &src);
+            }
+        }
+    }
+}
+
 pub fn run(em: &mut Emit, thorough: bool, seed: u64) {
+    error_order(em);
     let mut rng = Rng::new(seed ^ 0xC03);
     let n = if thorough { 400_000 } else { 20_000 };
     let mut i = 0;
